@@ -19,6 +19,7 @@ mod c15;
 mod c16;
 mod c17;
 mod c18;
+mod c19;
 mod gen;
 
 use util::Rng;
@@ -58,6 +59,7 @@ fn main() {
         "C16" => c16::run(&mut rng, n),
         "C17" => c17::run(&mut rng, n),
         "C18" => c18::run(&mut rng, n),
+        "C19" => c19::run(&mut rng, n),
         _ => {
             eprintln!("unknown property {prop}");
             std::process::exit(2);
